@@ -1,7 +1,12 @@
 NOTES = ("All checks are property-based tests over generated configurations / call histories / "
          "cycle-by-cycle schedules with explicit oracles; see DESIGN.md. VERIF_SEED selects the "
          "case stream, VERIF_REPO (default /repo) the tree under test, VERIF_SCALE multiplies "
-         "the per-worker case count.")
+         "the per-worker case count. Across the simulation-based checks one generated case in six "
+         "shares its design with companion cases (an identically configured twin, another case of the "
+         "same property, or a case of another property), each keeping its own oracle; one in six starts "
+         "after garbage on all inputs followed by a domain reset; components are also built from "
+         "arguments in every legal Python spelling (one-shot iterators, subclasses, shared / value-equal "
+         "/ falsy user objects). Pinned cases (scale, >256 items) run outside Hypothesis.")
 NOT_APPLICABLE = {}
 CHECKS = {
  "C02": dict(
@@ -28,7 +33,9 @@ CHECKS = {
     text=("Generated components of every class get the complementary standard interface connect()ed to each bus port; generated parameter pairs of "
           "the six signature classes are checked for create() round trip, equality iff defining parameters are equal (both argument orders), "
           "member presence, widths and flows computed independently from the parameters."),
-    note="Only same-class comparisons; FieldPort shapes compared after Shape.cast as documented."),
+    note=("Signatures are also compared with signatures of every other class, generic signatures and non-signatures (never equal), with copies "
+          "(always equal), created with integer path items and from the outermost frame of a thread; the flipped signature is not compared "
+          "(these classes compare parameters only). FieldPort shapes compared after Shape.cast as documented.")),
  "C04": dict(
     design_ref="DESIGN.md section 4, C04",
     technique="property-based testing with cycle-accurate simulation of the real multiplexer in lock step with a reference model (conforming and arbitrary stimuli)",
